@@ -1,0 +1,76 @@
+// Copyright The gittuf Authors
+// SPDX-License-Identifier: Apache-2.0
+
+//go:build verif
+
+// Machine-checked contracts (gvc) for the persistent cache index. This file is
+// comment-only and only parsed under the "verif" build tag.
+
+package cache
+
+//@ define sortedIdx(s []RSLEntryIndex) bool = forall i, j :: 0 <= i && i < j && j < len(s) ==> s[i].EntryNumber < s[j].EntryNumber
+//@ define posIdx(s []RSLEntryIndex) bool = forall i :: 0 <= i && i < len(s) ==> s[i].EntryNumber > 0
+//@ define wfIdx(s []RSLEntryIndex) bool = sortedIdx(s) && posIdx(s)
+//@ define memIdx(s []RSLEntryIndex, n uint64) bool = exists k :: 0 <= k && k < len(s) && s[k].EntryNumber == n
+//@ # floorAt(s, n, k): s[k] is the entry with the greatest number <= n
+//@ define floorAt(s []RSLEntryIndex, n uint64, k int) bool = 0 <= k && k < len(s) && s[k].EntryNumber <= n && (k+1 == len(s) || s[k+1].EntryNumber > n)
+//@ define noFloor(s []RSLEntryIndex, n uint64) bool = len(s) == 0 || s[0].EntryNumber > n
+
+//@ func ext:slices.BinarySearchFunc -> (idx, found)
+//@   trusted
+//@   pure
+//@   requires cmpIsByNumber: cmp == binarySearch
+//@   requires sorted: sortedIdx(x)
+//@   ensures 0 <= idx && idx <= len(x)
+//@   ensures found <==> (idx < len(x) && x[idx].EntryNumber == target.EntryNumber)
+//@   ensures forall j :: 0 <= j && j < idx ==> x[j].EntryNumber < target.EntryNumber
+//@   ensures forall j :: idx <= j && j < len(x) ==> x[j].EntryNumber >= target.EntryNumber
+
+//@ func [C08] binarySearch -> (r)
+//@   pure
+//@   ensures lt: (r < 0) <==> (a.EntryNumber < b.EntryNumber)
+//@   ensures eq: (r == 0) <==> (a.EntryNumber == b.EntryNumber)
+//@   ensures gt: (r > 0) <==> (a.EntryNumber > b.EntryNumber)
+
+//@ func [C08] (*Persistent).HasPolicyEntryNumber -> (id, has)
+//@   pure
+//@   requires p != nil && sortedIdx(p.PolicyEntries)
+//@   ensures iffMember: has <==> (entryNumber != 0 && memIdx(p.PolicyEntries, entryNumber))
+
+//@ func [C08] (*Persistent).FindPolicyEntryNumberForEntry -> (r)
+//@   pure
+//@   requires p != nil && sortedIdx(p.PolicyEntries)
+//@   ensures floor: forall k :: floorAt(p.PolicyEntries, entryNumber, k) ==> r == p.PolicyEntries[k]
+//@   ensures none: noFloor(p.PolicyEntries, entryNumber) ==> r.EntryNumber == 0
+//@   ensures total: noFloor(p.PolicyEntries, entryNumber) || (exists k :: floorAt(p.PolicyEntries, entryNumber, k))
+
+//@ func [C08] (*Persistent).FindAttestationsEntryNumberForEntry -> (r, fallthru)
+//@   requires p != nil && sortedIdx(p.AttestationEntries)
+//@   assigns p.AddedAttestationsBeforeNumber
+//@   ensures floor: forall k :: floorAt(p.AttestationEntries, entryNumber, k) ==> r == p.AttestationEntries[k]
+//@   ensures none: noFloor(p.AttestationEntries, entryNumber) ==> r.EntryNumber == 0
+//@   ensures noFallthrough: !fallthru
+//@   ensures watermark: p.AddedAttestationsBeforeNumber >= old(p.AddedAttestationsBeforeNumber) && p.AddedAttestationsBeforeNumber >= entryNumber
+//@   ensures watermarkExact: p.AddedAttestationsBeforeNumber == old(p.AddedAttestationsBeforeNumber) || p.AddedAttestationsBeforeNumber == entryNumber
+
+//@ func [C08] (*Persistent).SetAddedAttestationsBeforeNumber
+//@   requires p != nil
+//@   assigns p.AddedAttestationsBeforeNumber
+//@   ensures max: p.AddedAttestationsBeforeNumber >= old(p.AddedAttestationsBeforeNumber) && p.AddedAttestationsBeforeNumber >= entryNumber
+//@   ensures exact: p.AddedAttestationsBeforeNumber == old(p.AddedAttestationsBeforeNumber) || p.AddedAttestationsBeforeNumber == entryNumber
+
+//@ func [C08] (*Persistent).FindPolicyEntriesInRange -> (r, err)
+//@   pure
+//@   requires p != nil && sortedIdx(p.PolicyEntries)
+//@   # the caller must start the range at or after the first indexed policy entry
+//@   requires startCovered: len(p.PolicyEntries) == 0 || p.PolicyEntries[0].EntryNumber <= firstNumber
+//@   requires ordered: firstNumber <= lastNumber
+//@   ensures empty: len(p.PolicyEntries) == 0 ==> err == ErrNoPersistentCache
+//@   ensures ok: len(p.PolicyEntries) != 0 ==> err == nil
+//@   ensures startsAtFloor: err == nil ==> len(r) >= 1 && floorAt(p.PolicyEntries, firstNumber, 0 + indexOfFirst(p.PolicyEntries, r))
+//@   ensures contiguous: err == nil ==> forall i :: 0 <= i && i < len(r) ==> r[i] == p.PolicyEntries[indexOfFirst(p.PolicyEntries, r) + i]
+//@   ensures upTo: err == nil ==> forall i :: 0 <= i && i < len(r) ==> r[i].EntryNumber <= lastNumber
+//@   ensures complete: err == nil ==> forall k :: indexOfFirst(p.PolicyEntries, r) <= k && k < len(p.PolicyEntries) && p.PolicyEntries[k].EntryNumber <= lastNumber ==> k < indexOfFirst(p.PolicyEntries, r) + len(r)
+
+//@ # offset of a sub-slice within the slice it was cut from
+//@ define indexOfFirst(s []RSLEntryIndex, r []RSLEntryIndex) int = smt("(- (slc_off %1) (slc_off %2))", int, r, s)
